@@ -18,7 +18,7 @@ import (
 // Pool request scenario shared by C06 (isolation) and C17 (capacity / waiting / conservation).
 //
 // Rule set (3 rules, so every execution model incl. N-M and DAG is applicable):
-//   r0: tin(req.Id); resp.Id = req.Id; step(req.Id, req.Mode); y = 1 / req.Div; seen(req.Id, resp.Id); tout(req.Id); return req.Id
+//   r0: tin(req.Id); resp.Id = req.Id; step(req.Id, req.Mode); y = 1 / req.Div; req.NM["k"] = 1; seen(req.Id, resp.Id); tout(req.Id); return req.Id
 //   r1: cf(7, 2); return req.Id + 100               (a call whose arguments are all constants and need converting)
 //   r2: opt(other.V); return req.Id + 200          ("other" is injected by some requests only)
 
@@ -28,26 +28,35 @@ rule "r0" salience 10 begin
   resp.Id = req.Id
   step(req.Id, req.Mode)
   y = 1 / req.Div
+  req.NM["k"] = 1
   seen(req.Id, resp.Id)
   tout(req.Id)
-  return req.Id
+  if req.Ret == 1 {
+    return req.Id
+  }
 end
 rule "r1" salience 5 begin
   cf(7, 2)
-  return req.Id + 100
+  if req.Ret == 1 {
+    return req.Id + 100
+  }
 end
 rule "r2" salience 1 begin
   opt(req.Id, other.V)
-  return req.Id + 200
+  if req.Ret == 1 {
+    return req.Id + 200
+  }
 end
 `
 
 const (
-	modeOK    = 0
-	modePanic = 1 // injected function panics inside the rule
-	modeGate  = 2 // blocks inside the rule until the harness opens the gate
-	modeError = 3 // a later statement of the rule fails (division by zero)
-	modeEmpty = 4 // degenerate request: empty name list / empty DAG (nothing to run)
+	modeOK     = 0
+	modePanic  = 1 // injected function panics inside the rule
+	modeGate   = 2 // blocks inside the rule until the harness opens the gate
+	modeError  = 3 // a later statement of the rule fails (division by zero)
+	modeEmpty  = 4 // degenerate request: empty name list / empty DAG (nothing to run)
+	modeNilMap = 5 // a later statement of the rule fails inside reflect (store into a map that was never made)
+	modeNoRet  = 6 // healthy request in which no rule reaches a return (its result map is empty)
 )
 
 type reqSpec struct {
@@ -66,12 +75,17 @@ type poolCfg struct {
 	// StopOnErr: call the method with its error-policy flag false (stop on error); NM: the N, M split
 	StopOnErr bool   `json:"stop_on_err,omitempty"`
 	NM        [2]int `json:"nm,omitempty"`
+	// GateAfter: requests of mode "gate" issued by the clients stay inside their rule until that many
+	// requests have returned (0: no such requests among the clients')
+	GateAfter int `json:"gate_after,omitempty"`
 }
 
 type PoolReq struct {
 	Id   int64
 	Mode int64
 	Div  int64
+	NM   map[string]int64
+	Ret  int64 // 1: the rules return their values
 }
 type PoolResp struct{ Id int64 }
 type PoolOther struct{ V int64 }
@@ -224,7 +238,7 @@ func (st *poolState) makeApis() map[string]interface{} {
 					st.inflight--
 				}
 				panic("step panics")
-			case modeError:
+			case modeError, modeNilMap:
 				l.Ev("out", id)
 				if !vsched.Aborted() {
 					st.inflight--
@@ -273,7 +287,14 @@ func (st *poolState) issue(gp *engine.GenginePool, m *gx.PoolMethod, id int64, s
 		if spec.Mode == modeEmpty {
 			mode = modeOK
 		}
-		data["req"] = &PoolReq{Id: id, Mode: mode, Div: div}
+		req := &PoolReq{Id: id, Mode: mode, Div: div, NM: map[string]int64{}, Ret: 1}
+		if spec.Mode == modeNoRet {
+			req.Ret, req.Mode = 0, modeOK
+		}
+		if spec.Mode == modeNilMap {
+			req.NM = nil
+		}
+		data["req"] = req
 		data["resp"] = resp
 		if spec.Other && !m.ReqResp {
 			data["other"] = &PoolOther{V: id + 1000}
@@ -288,6 +309,7 @@ func (st *poolState) issue(gp *engine.GenginePool, m *gx.PoolMethod, id int64, s
 	}
 	rec.err, rec.res, rec.pan = gx.PoolCallGuarded(m, gp, data, p)
 	rec.resCopy = gx.CopyResult(rec.res)
+	vsched.AccM(rec.res, vsched.SiteClientRead, false) // the client reads what it was handed (seen by the race monitor)
 	rec.respID = resp.Id
 	rec.spawn1 = vsched.SpawnCount()
 	rec.done = true
@@ -332,12 +354,30 @@ func poolScenario(cfg poolCfg) *hx.Scenario {
 				base := nextID
 				nextID += int64(len(reqs))
 				vsched.Go(func() {
+					var mine []*reqRec
 					for i, sp := range reqs {
-						st.issue(gp, m, base+int64(i)+1, sp, false)
+						mine = append(mine, st.issue(gp, m, base+int64(i)+1, sp, false))
+					}
+					for _, r := range mine {
+						vsched.AccM(r.res, vsched.SiteClientRead, false) // ... and may read it again at any later time
 					}
 				})
 			}
+			if cfg.GateAfter > 0 {
+				vsched.WaitUntil(func() bool {
+					n := 0
+					for _, r := range st.recs {
+						if r.done {
+							n++
+						}
+					}
+					// (all instances parked at the gate: nobody else can finish first, open it)
+					return n >= cfg.GateAfter || st.gateCnt >= int(cfg.Max)
+				})
+				st.gateOpen = true
+			}
 			vsched.WaitOthersDone()
+			st.gateOpen = false
 			if !cfg.Phase2 {
 				return
 			}
@@ -437,7 +477,7 @@ func poolOracle(cfg poolCfg, m *gx.PoolMethod, st *poolState, ex *vsched.Exec) (
 			if r.probe {
 				continue
 			}
-			wantErr := r.spec.Mode == modePanic || r.spec.Mode == modeError || !(r.spec.Other && !m.ReqResp)
+			wantErr := r.spec.Mode == modePanic || r.spec.Mode == modeError || r.spec.Mode == modeNilMap || !(r.spec.Other && !m.ReqResp)
 			if m.Name == "ExecuteDAGModel" || strings.Contains(m.Name, "Selected") || strings.Contains(m.Name, "NSort") || strings.Contains(m.Name, "NConc") || strings.Contains(m.Name, "Mix") {
 				// these models may legitimately skip r2 (stop policy / window): only a spurious error is judged
 				if r.err != nil && !wantErr {
@@ -477,6 +517,9 @@ func poolOracle(cfg poolCfg, m *gx.PoolMethod, st *poolState, ex *vsched.Exec) (
 				}
 			}
 			continue
+		}
+		if r.err != nil && r.spec.Mode != modePanic && r.spec.Mode != modeError && r.spec.Mode != modeNilMap && r.spec.Other && !m.ReqResp && r.spec.Mode != modeEmpty {
+			bad(m.Name+":healthy-request-failed", fmt.Sprintf("request %d fails nowhere and injects everything its rules read, yet the call returned an error (its data went away under it): %v", r.id, r.err))
 		}
 		if r.respID != r.id && !(r.spec.Mode == modeEmpty && st.log.Count("in", r.id) == 0) {
 			bad(m.Name+":resp", fmt.Sprintf("request %d: host response object holds Id=%d after the call", r.id, r.respID))
